@@ -174,6 +174,11 @@ def run(tier, replay=None):
                detail='panic paths %d; unclassified externals %s' % (len(pan), unk[:3]))
     # the round trip through the serialised string needs the subtag validators to be exact and normalising (shared with C15)
     validators.run_all(prog, rep, roles_wanted={'Language', 'Script', 'Region', 'Variant'})
+    # "serialises to exactly its canonical string" / "deserialising that output yields an equal value", in the configuration where serde is compiled in:
+    # the Display automata of the identifier and its subtags, and the core parser table that re-reads what they print
+    from . import emitrules, parserules
+    emitrules.check_display(prog, rep, wanted={'LanguageIdentifier', 'Language', 'Script', 'Region', 'Variant'})
+    parserules.check(prog, rep, 'core')
     rep.count('bodies analysed', len(analysed))
     rep.floor('serde bodies analysed', len(analysed), 4)
     # ---- "deserialising the serialised form gives an equal value": the serialised text is the canonical string, so the trip is the identity only on
